@@ -298,6 +298,27 @@ def check_solution_shape(sol, system, solver_name, out_violations):
     if len(recs) != nt:
         out_violations.append(violation("iterator", solver_name, f"iterating the Solution yields {len(recs)} records for {nt} instants"))
         return False
+    # two iterations alive at the same time (zip, nested loops) are independent of each other
+    if nt >= 2:
+        try:
+            pairs = [(float(a.t), float(b.t)) for a, b in zip(sol, sol)]
+            it1 = iter(sol)
+            first = float(next(it1).t)
+            inner = [float(r.t) for r in sol]  # a complete second iteration while the first one is suspended
+            second = float(next(it1).t)
+        except Exception as e:
+            out_violations.append(violation("iterator", f"{solver_name}/concurrent", f"two simultaneous iterations over one Solution raised {type(e).__name__}: {e}"))
+            return False
+        tt = [float(x) for x in np.asarray(sol.t)]
+        if pairs != [(x, x) for x in tt] or inner != tt or (first, second) != (tt[0], tt[1]):
+            out_violations.append(
+                violation(
+                    "iterator",
+                    f"{solver_name}/concurrent",
+                    f"two simultaneous iterations over one Solution are not independent: zip(sol, sol) gives {len(pairs)} pairs starting {pairs[:2]} for {nt} instants; a suspended iterator continues at t={second} instead of {tt[1]} after another loop ran",
+                )
+            )
+            return False
     for i in sorted({0, nt // 2, nt - 1}):
         rec = recs[i]
         for name in rec._fields:
